@@ -35,6 +35,8 @@ type COp struct {
 	Kind     string
 	Key      string `json:",omitempty"`
 	UseCert  bool   `json:",omitempty"`
+	// Window (with UseCert): the certificate's validity window: "" = for ever | tenmin | hour | expired | future
+	Window  string `json:",omitempty"`
 	DataLen  int    `json:",omitempty"`
 	DataSeed int    `json:",omitempty"`
 	Flags    int    `json:",omitempty"`
@@ -83,15 +85,31 @@ var (
 	x509Certs []*x509.Certificate
 )
 
-func sshCert(key string) *ssh.Certificate {
+func sshCert(key string) *ssh.Certificate { return sshCertW(key, "") }
+
+// sshCertW: the pool certificate over key with the named validity window (what the calls carry is passed
+// through whatever it says)
+func sshCertW(key, window string) *ssh.Certificate {
 	certMu.Lock()
 	defer certMu.Unlock()
-	if c, ok := sshCerts[key]; ok {
+	if c, ok := sshCerts[key+"/"+window]; ok {
 		return c
 	}
 	a := vh.KeyIDAttrs{Prins: []string{"user_a"}, TransID: "22dde224", ReqUser: "user_a", ReqIP: "1.1.1.1", ReqHost: "host", HW: true, Touch: 3, Version: 1}
-	c := vh.MakeSSHCert(vh.SSHCertSpec{Key: key, KeyID: a.Text(), ValidAfter: 0, ValidBefore: ssh.CertTimeInfinity, Principals: []string{"user_a"}, Serial: 7})
-	sshCerts[key] = c
+	spec := vh.SSHCertSpec{Key: key, KeyID: a.Text(), ValidAfter: 0, ValidBefore: ssh.CertTimeInfinity, Principals: []string{"user_a"}, Serial: 7}
+	now := uint64(time.Now().Unix())
+	switch window {
+	case "tenmin":
+		spec.ValidAfter, spec.ValidBefore = now-60, now+600
+	case "hour":
+		spec.ValidAfter, spec.ValidBefore = now-60, now+3600
+	case "expired":
+		spec.ValidAfter, spec.ValidBefore = now-7200, now-3600
+	case "future":
+		spec.ValidAfter, spec.ValidBefore = now+3600, now+7200
+	}
+	c := vh.MakeSSHCert(spec)
+	sshCerts[key+"/"+window] = c
 	return c
 }
 
@@ -135,7 +153,7 @@ func (o COp) pub() ssh.PublicKey {
 		return nil
 	}
 	if o.UseCert {
-		return sshCert(o.Key)
+		return sshCertW(o.Key, o.Window)
 	}
 	return vh.SSHPub(o.Key)
 }
@@ -189,6 +207,9 @@ func genOp(t *rapid.T, label string) COp {
 		o.SigLen = rapid.SampledFrom([]int{0, 64, 256, 512}).Draw(t, label+"SL")
 	case "add":
 		o.Key, o.UseCert = keyName(), rapid.Bool().Draw(t, label+"UC")
+		if o.UseCert {
+			o.Window = rapid.SampledFrom([]string{"", "", "tenmin", "hour", "expired", "future"}).Draw(t, label+"W")
+		}
 		o.Comment = genText(t, label+"C")
 		if rapid.Bool().Draw(t, label+"HasL") {
 			o.Lifetime = rapid.SampledFrom([]uint32{1, 3600, 86400, 1<<32 - 1}).Draw(t, label+"L")
@@ -200,6 +221,9 @@ func genOp(t *rapid.T, label string) COp {
 		o.Pass = rapid.SampledFrom([][]byte{{}, []byte("pw"), []byte("correct horse"), {0, 255, 10}, bytes.Repeat([]byte("p"), 300)}).Draw(t, label+"P")
 	case "addhard", "addhard-legacy":
 		o.Key, o.UseCert = keyName(), rapid.IntRange(0, 4).Draw(t, label+"UC") > 0
+		if o.UseCert {
+			o.Window = rapid.SampledFrom([]string{"", "", "tenmin", "hour", "expired", "future"}).Draw(t, label+"W")
+		}
 		if o.Kind == "addhard" {
 			o.Comment = genText(t, label+"C")
 		}
@@ -389,7 +413,7 @@ func execSeq(c SeqCase) (vh.Outcome, error) {
 			case "add":
 				ak := agent.AddedKey{PrivateKey: vh.PrivKey(o.Key), Comment: o.Comment, LifetimeSecs: o.Lifetime, ConfirmBeforeUse: o.Confirm}
 				if o.UseCert {
-					ak.Certificate = sshCert(o.Key)
+					ak.Certificate = sshCertW(o.Key, o.Window)
 				}
 				opErr = cl.Add(ak)
 			case "remove":
@@ -465,7 +489,7 @@ func execSeq(c SeqCase) (vh.Outcome, error) {
 			if serr != nil || !bytes.Equal(s.PublicKey().Marshal(), vh.SSHPub(o.Key).Marshal()) {
 				return out, vh.Errf("%s: the private key received by the served agent is not the one sent (%v)", where, serr)
 			}
-			if o.UseCert != (a.Certificate != nil) || (o.UseCert && !bytes.Equal(a.Certificate.Marshal(), sshCert(o.Key).Marshal())) {
+			if o.UseCert != (a.Certificate != nil) || (o.UseCert && !bytes.Equal(a.Certificate.Marshal(), sshCertW(o.Key, o.Window).Marshal())) {
 				return out, vh.Errf("%s: certificate not passed byte-identically", where)
 			}
 			if a.Comment != o.Comment || a.LifetimeSecs != o.Lifetime || a.ConfirmBeforeUse != o.Confirm {
@@ -684,7 +708,7 @@ func parseSmartcard(raw []byte) (id string, pin, rest []byte, ok bool) {
 	return id, b[4 : 4+l], b[4+l:], true
 }
 
-const ruleSeq = "sequences of 1..10 operations through NewClientFromConn (socket pair) or NewClient(address) (unix-socket listener) <-> ServeAgent(recording agent): list, sign-with-flags (flags 0/2/4, data 0..64 KiB), add with lifetime / confirm constraints for RSA, ECDSA, Ed25519 and DSA keys with and without certificate, remove, remove-all, lock / unlock with arbitrary passphrase bytes, signers, add-hardware-certificate (new format through the client, legacy [31][blob] through Forward), list / read / attest slot with slot names and certificates up to ~8 KiB (one of the six in the encoding of YubiKey firmware before 4.3.3: RSA key identifier without NULL, which crypto/x509 refuses and the repository's parser reads), wait with any code, raw forward of uninterpreted codes with bodies and replies up to 64 KiB, add / remove smartcard, extension; the served agent returns generated results or generated error texts (a quarter of the operations fail, half of those handing a result value back next to the error). Oracle: recorded arguments = sent arguments, caller result = scripted result byte-for-byte, served error => caller error (text equal where the protocol carries text), exactly one call reaches the served agent per operation; every signer returned by signers signs once and that reaches the served agent as a sign request for exactly the listed identity; key objects the served agent was handed earlier stay byte-identical when re-encoded after later operations. Excluded by construction (known findings): error text 'SUCCESS' for add-hardware-certificate / wait, empty error text for the slot listing. Non-trivial: >= 1 extended operation and >= 1 failing operation."
+const ruleSeq = "sequences of 1..10 operations through NewClientFromConn (socket pair) or NewClient(address) (unix-socket listener) <-> ServeAgent(recording agent): list, sign-with-flags (flags 0/2/4, data 0..64 KiB), add with lifetime / confirm constraints for RSA, ECDSA, Ed25519 and DSA keys with and without certificate, remove, remove-all, lock / unlock with arbitrary passphrase bytes, signers, add-hardware-certificate (new format through the client, legacy [31][blob] through Forward), list / read / attest slot with slot names and certificates up to ~8 KiB (one of the six in the encoding of YubiKey firmware before 4.3.3: RSA key identifier without NULL, which crypto/x509 refuses and the repository's parser reads), wait with any code, raw forward of uninterpreted codes with bodies and replies up to 64 KiB, add / remove smartcard, extension; the served agent returns generated results or generated error texts (a quarter of the operations fail, half of those handing a result value back next to the error). Certificates carried by add / add-hardware-certificate calls are valid for ever, for ten minutes, for an hour, expired or not yet valid (what a call carries is passed on whatever it says). Oracle: recorded arguments = sent arguments, caller result = scripted result byte-for-byte, served error => caller error (text equal where the protocol carries text), exactly one call reaches the served agent per operation; every signer returned by signers signs once and that reaches the served agent as a sign request for exactly the listed identity; key objects the served agent was handed earlier stay byte-identical when re-encoded after later operations. Excluded by construction (known findings): error text 'SUCCESS' for add-hardware-certificate / wait, empty error text for the slot listing. Non-trivial: >= 1 extended operation and >= 1 failing operation."
 
 func TestC13Client(t *testing.T) {
 	vh.Run(t, vh.Spec[SeqCase]{Property: "C13", Name: "TestC13Client", Rule: ruleSeq, Gen: genSeq, Exec: execSeq, Journal: true})
